@@ -167,31 +167,41 @@ def Value.num? : Value → Option Dec
   | .dec d => some d
   | _ => none
 
+/-- strip trailing zeros of a non-zero coefficient -/
+def stripAll : Nat → Int → Int → Int × Int
+  | 0, c, e => (c, e)
+  | f+1, c, e => if c != 0 && c % 10 == 0 then stripAll f (c / 10) (e + 1) else (c, e)
+
+/-- canonical (coefficient, exponent) of a decimal: equal exactly for numerically equal values -/
+def Dec.norm (d : Dec) : Int × Int :=
+  if d.coef == 0 then (0, 0) else stripAll (ndig d.coef) d.coef d.exp
+
+def lenPrefixed (s : String) : String := toString s.length ++ ":" ++ s
+
 mutual
-/-- Python `==` between values that beanquery may put in one key tuple. -/
-def pyEq : Value → Value → Bool
-  | .null, .null => true
-  | .str a, .str b => a == b
-  | .date a, .date b => a == b
-  | .list a, .list b => pyEqList a b
-  | .set a, .set b => pyEqList a b
-  | .interval a b c, .interval x y z => a == x && b == y && c == z
-  | .opaque t i, .opaque u j => t == u && i == j
-  | .int a, .int b => a == b
-  | .bool a, .bool b => a == b
-  | .int a, .bool b => a == (if b then 1 else 0)
-  | .bool a, .int b => (if a then 1 else 0) == b
-  | .dec a, .dec b => Dec.eqv a b
-  | .dec a, .int b => Dec.eqv a (Dec.ofInt b)
-  | .int a, .dec b => Dec.eqv (Dec.ofInt a) b
-  | .dec a, .bool b => Dec.eqv a (Dec.ofInt (if b then 1 else 0))
-  | .bool a, .dec b => Dec.eqv (Dec.ofInt (if a then 1 else 0)) b
-  | _, _ => false
-def pyEqList : List Value → List Value → Bool
-  | [], [] => true
-  | a :: as, b :: bs => pyEq a b && pyEqList as bs
-  | _, _ => false
+/-- Equality key: two values are equal for Python's `==` (and hash alike) exactly when their
+    keys are equal strings.  int, bool and Decimal share one numeric form (`1 == 1.0 == True`). -/
+def eqKey : Value → String
+  | .null => "N"
+  | .int i => let n := Dec.norm (Dec.ofInt i); "n" ++ toString n.1 ++ "e" ++ toString n.2
+  | .bool b => if b then "n1e0" else "n0e0"
+  | .dec d => let n := Dec.norm d; "n" ++ toString n.1 ++ "e" ++ toString n.2
+  | .str s => "s" ++ lenPrefixed s
+  | .date d => "t" ++ toString d.y ++ "-" ++ toString d.m ++ "-" ++ toString d.d
+  | .list xs => "l[" ++ eqKeyList xs ++ "]"
+  | .set xs => "z[" ++ eqKeyList xs ++ "]"
+  | .interval y m d => "r" ++ toString y ++ "," ++ toString m ++ "," ++ toString d
+  | .opaque t i => "o" ++ lenPrefixed t ++ "#" ++ toString i
+def eqKeyList : List Value → String
+  | [] => ""
+  | v :: vs => lenPrefixed (eqKey v) ++ eqKeyList vs
 end
+
+/-- Python `==` between values -/
+def pyEq (a b : Value) : Bool := eqKey a == eqKey b
+
+/-- Python tuple / list `==` -/
+def pyEqList (a b : List Value) : Bool := eqKeyList a == eqKeyList b
 
 /-- Python `<` inside one comparable class; `none` = TypeError. -/
 def pyLt? : Value → Value → Option Bool
@@ -201,24 +211,6 @@ def pyLt? : Value → Value → Option Bool
     match a.num?, b.num? with
     | some x, some y => some (Dec.lt x y)
     | _, _ => none
-
-/-- structural equality used for canonical comparison (coefficient and exponent exact). -/
-def Value.beq : Value → Value → Bool
-  | .null, .null => true
-  | .int a, .int b => a == b
-  | .dec a, .dec b => a == b
-  | .str a, .str b => a == b
-  | .date a, .date b => a == b
-  | .bool a, .bool b => a == b
-  | .list a, .list b => go a b
-  | .set a, .set b => go a b
-  | .interval a b c, .interval x y z => a == x && b == y && c == z
-  | .opaque t i, .opaque u j => t == u && i == j
-  | _, _ => false
-where go : List Value → List Value → Bool
-  | [], [] => true
-  | a :: as, b :: bs => Value.beq a b && go as bs
-  | _, _ => false
 
 /-! ## Canonical printing (the wire format of results) -/
 
